@@ -1,13 +1,31 @@
 package main
 
 import (
+	"strings"
+	"flag"
 	"fmt"
 	"os"
+	"sort"
+	"strconv"
+	"sync"
+	"time"
 )
+
+func envSeed() uint64 {
+	if s := os.Getenv("VERIF_SEED"); s != "" {
+		if v, err := strconv.ParseUint(s, 10, 64); err == nil {
+			return v
+		}
+		if v, err := strconv.ParseInt(s, 10, 64); err == nil {
+			return uint64(v)
+		}
+	}
+	return 20261003
+}
 
 func main() {
 	if len(os.Args) < 2 {
-		fmt.Fprintln(os.Stderr, "usage: simcheck <build|smoke|run|replay> ...")
+		fmt.Fprintln(os.Stderr, "usage: simcheck <build|smoke|dev|run|replay> ...")
 		os.Exit(2)
 	}
 	switch os.Args[1] {
@@ -18,20 +36,147 @@ func main() {
 			os.Exit(2)
 		}
 		fmt.Println(bin)
-	case "smoke":
-		smoke()
+	case "dev":
+		devMain(os.Args[2:])
+	case "run":
+		runMain(os.Args[2:])
+	case "replay":
+		replayMain(os.Args[2:])
+	default:
+		fmt.Fprintln(os.Stderr, "unknown subcommand")
+		os.Exit(2)
 	}
 }
 
-func smoke() {
-	w := NewWorld("/verif/build/ergo", NewClock("fine", 1), NewRandStream(1))
-	defer w.Destroy()
-	w.TraceOn = true
-	p := w.RunOne(ProcSpec{Argv: []string{"init"}, Cwd: w.Proj, Label: "init"})
-	fmt.Printf("init: code=%d out=%q err=%q\n", p.ExitCode, p.Stdout, p.Stderr)
-	p = w.RunOne(ProcSpec{Argv: []string{"--json", "new", "task"}, Stdin: []byte(`{"title":"hello"}`), Cwd: w.Proj, Label: "new"})
-	fmt.Printf("new: code=%d out=%q err=%q\n", p.ExitCode, p.Stdout, p.Stderr)
-	for _, l := range w.TraceLn {
-		fmt.Println(l)
+// safeRun converts harness panics into a report.
+func safeRun(f func() *RunReport) (rep *RunReport) {
+	defer func() {
+		if x := recover(); x != nil {
+			switch e := x.(type) {
+			case HarnessError:
+				rep = &RunReport{Harness: e.Msg}
+			case WatchdogSpin:
+				rep = &RunReport{V: []Violation{{Prop: "C12", Oracle: "non-termination", Sig: "non-termination:" + fmt.Sprint(e.Argv), Detail: fmt.Sprintf("ergo %v burned CPU for the whole watchdog period without reaching a system call", e.Argv)}}}
+			default:
+				panic(x)
+			}
+		}
+	}()
+	return f()
+}
+
+func devMain(args []string) {
+	fs := flag.NewFlagSet("dev", flag.ExitOnError)
+	prop := fs.String("prop", "C06", "")
+	runs := fs.Int("runs", 20, "")
+	workers := fs.Int("workers", 16, "")
+	seed := fs.Uint64("seed", envSeed(), "")
+	verbose := fs.Bool("v", false, "")
+	fs.Parse(args)
+	bin, err := buildErgo("/repo", "/verif", "/verif/build")
+	if err != nil {
+		fmt.Fprintln(os.Stderr, err)
+		os.Exit(2)
 	}
+	start := time.Now()
+	type res struct {
+		i   int
+		rep *RunReport
+	}
+	ch := make(chan int)
+	out := make(chan res)
+	var wg sync.WaitGroup
+	for w := 0; w < *workers; w++ {
+		wg.Add(1)
+		go func() {
+			defer wg.Done()
+			for i := range ch {
+				s := mix64(*seed, uint64(i)*7919+hashStr(*prop))
+				rep := safeRun(func() *RunReport { return runSeqGenerated(bin, *prop, s) })
+				out <- res{i, rep}
+			}
+		}()
+	}
+	go func() {
+		for i := 0; i < *runs; i++ {
+			ch <- i
+		}
+		close(ch)
+		wg.Wait()
+		close(out)
+	}()
+	sigs := map[string][]string{}
+	sigCount := map[string]int{}
+	cmds, effects := 0, 0
+	for r := range out {
+		if r.rep.Harness != "" {
+			fmt.Println("HARNESS:", r.rep.Harness)
+			continue
+		}
+		cmds += r.rep.Cmds
+		effects += r.rep.Effects
+		for _, v := range r.rep.V {
+			k := v.Prop + " " + v.Sig
+			if !*verbose {
+				k = v.Prop + " " + v.Oracle + " " + coarse(v.Sig)
+			}
+			sigCount[k]++
+			if len(sigs[k]) < 1 {
+				sigs[k] = append(sigs[k], fmt.Sprintf("run %d step %d: %s", r.i, v.Step, v.Detail))
+			}
+		}
+		if *verbose {
+			fmt.Printf("run %d: cmds=%d effects=%d viol=%d\n", r.i, r.rep.Cmds, r.rep.Effects, len(r.rep.V))
+		}
+	}
+	var ks []string
+	for k := range sigs {
+		ks = append(ks, k)
+	}
+	sort.Strings(ks)
+	for _, k := range ks {
+		fmt.Printf("%4d× %s\n      %s\n", sigCount[k], k, sigs[k][0])
+	}
+	fmt.Printf("runs=%d cmds=%d effects=%d wall=%.1fs\n", *runs, cmds, effects, time.Since(start).Seconds())
+}
+
+func hashStr(s string) uint64 {
+	var h uint64 = 1469598103934665603
+	for i := 0; i < len(s); i++ {
+		h ^= uint64(s[i])
+		h *= 1099511628211
+	}
+	return h
+}
+
+func coarse(sig string) string {
+	// drop field lists in braces, input modes and pre-state classes (@…)
+	var segs []string
+	for _, seg := range strings.Split(sig, "|") {
+		if strings.HasPrefix(seg, "@") {
+			continue
+		}
+		out := []byte{}
+		depth := 0
+		for i := 0; i < len(seg); i++ {
+			c := seg[i]
+			if c == '{' {
+				depth++
+				continue
+			}
+			if c == '}' {
+				depth--
+				continue
+			}
+			if depth == 0 {
+				out = append(out, c)
+			}
+		}
+		s := string(out)
+		for _, m := range []string{"/flags", "/bodystdin"} {
+			s = strings.ReplaceAll(s, m, "")
+		}
+		segs = append(segs, s)
+	}
+	return strings.Join(segs, "|")
 }
